@@ -787,6 +787,7 @@ impl Session {
     }
 
 //@@ fn file=fe2o3-amqp/src/session/mod.rs impl=`impl endpoint::Session for Session` name=abandon_pending_deliveries
+//@@ shape loops=while,while;stmt1={ let
 //@@ addparam log: &mut ReleaseLog
 //@@ subst `relay.abandon_pending_deliveries()` => `relay.abandon_pending_deliveries_l(log)` rule=R9
 //@@ spec
@@ -799,13 +800,13 @@ impl Session {
             *self == *old(self), __im0 <= self.link_by_input_handle.order().len(),
             forall|j: int| 0 <= j < __im0 ==> log@.contains(#[trigger] self.link_by_input_handle@[self.link_by_input_handle.order()[j]]),
         decreases self.link_by_input_handle.order().len() - __im0,
-//@@ loop 1
+//@@ loop 1 optional
         invariant
             *self == *old(self), __im1 <= self.link_by_name.order().len(),
             forall|k: InputHandle| self.link_by_input_handle@.contains_key(k) ==> log@.contains(#[trigger] self.link_by_input_handle@[k]),
             forall|j: int| 0 <= j < __im1 && self.link_by_name@[self.link_by_name.order()[j]] is Some ==> log@.contains(#[trigger] self.link_by_name@[self.link_by_name.order()[j]]->Some_0),
         decreases self.link_by_name.order().len() - __im1,
-//@@ stmt 1
+//@@ stmt 1 optional
         proof {
             let ord = self.link_by_input_handle.order();
             assert forall|k: InputHandle| self.link_by_input_handle@.contains_key(k) implies log@.contains(#[trigger] self.link_by_input_handle@[k]) by {
